@@ -122,21 +122,11 @@ def enum_action(tier):
         if thorough and ci in (0, 2):
             for atoms in itertools.product(alpha, repeat=4):
                 yield ('action', cfg, atoms, 0)
-    # structural subset (slot list / attachment surgery only): one atom more than the full alphabet gets (quick 4, thorough 5)
-    structural = [i for i, (n, _) in enumerate(ACTION_ATOMS) if n in ('next', 'glyph_x', 'subs+1', 'copy-1', 'copy+1', 'insert', 'delete', 'assoc-1+1', 'att-1', 'att+1', 'att0')]
-    for atoms in itertools.product(structural, repeat=5 if thorough else 4):
-        if not thorough and len(set(atoms)) < 3: continue
-        yield ('action', cfgs[0], atoms, 0)
+    # programs whose run-time stack use exceeds the loader's linear depth analysis
     for a in range(NA_BASE, len(ACTION_ATOMS)):
         for cfg in cfgs[:3]:
             yield ('action', cfg, (a,), 0); yield ('action', cfg, (0, a), 0)
-    if not thorough:
-        # quick: the 5-atom programs that use one atom of each kind (advance, glyph change, delete, copy, attach), in every order
-        kinds = [('next',), ('glyph_x', 'subs+1'), ('delete',), ('copy-1', 'copy+1'), ('att-1', 'att+1', 'att0')]
-        idx = {n: i for i, (n, _) in enumerate(ACTION_ATOMS)}
-        for choice in itertools.product(*kinds):
-            for perm in itertools.permutations(choice):
-                yield ('action', cfgs[0], tuple(idx[n] for n in perm), 0)
+    # (4-, 5- and 6-atom programs over the structural atoms are the 'deep' family)
 
 
 def enum_constraint(tier):
@@ -289,7 +279,22 @@ def font_for_growth(k, late, two, just):
     return F
 
 
-ENUMS = dict(action=enum_action, constraint=enum_constraint, twopass=enum_twopass, manyrules=enum_manyrules, growth=enum_growth)
+def enum_deep(tier):
+    """Structural atoms only, short texts: every 5-atom program in the main substitution context (quick); thorough adds the 5-atom programs in five other
+    contexts and the 6-atom programs that contain two of {insert/delete, copy, attach}."""
+    structural = [i for i, (n, _) in enumerate(ACTION_ATOMS) if n in ('next', 'glyph_x', 'subs+1', 'copy-1', 'copy+1', 'insert', 'delete', 'assoc-1+1', 'att-1', 'att+1', 'att0')]
+    for n in (4, 5):
+        for atoms in itertools.product(structural, repeat=n): yield ('action', (2, 0, 2, 'sub'), atoms, 0)
+    if tier == 'thorough':
+        yield from enum_action_campaign('campaign5')
+        yield from enum_action_campaign('campaign6')
+    else:
+        spos = [i for i in structural if ACTION_ATOMS[i][0] not in ('insert', 'delete')]
+        for atoms in itertools.product(structural, repeat=5): yield ('action', (3, 1, 5, 'sub'), atoms, 0)
+        for atoms in itertools.product(spos, repeat=5): yield ('action', (2, 0, 1, 'pos'), atoms, 0)
+
+
+ENUMS = dict(deep=enum_deep, action=enum_action, constraint=enum_constraint, twopass=enum_twopass, manyrules=enum_manyrules, growth=enum_growth)
 
 
 def main():
